@@ -39,7 +39,7 @@ for n in ("p5_decode", "p5_decode_explicit"):
     H(n, src="p_decode.c", tus=API_TUS, strip=P5_STRIP, c16=True, flags=CAD + ["--unwind", "%d" % 600], cap=240, rss=2.0)
 
 # T1 / T3-lemma: unwind = longest string + a few (skip loops are bounded by it)
-for n in ("t1_accept", "t1_safety", "t1_comparer", "t3_lemma"):
+for n in ("t1_accept", "t1_safety", "t1_comparer", "t3_lemma", "t1_long"):
     H(n, src="t_cmp.c", tus=["lang"], flags=CAD, cap=300, rss=2.0)
 
 H("t2_search", src="t_search.c", tus=["lang"], extra=["stubs/bsearch.c"], flags=CAD, cap=300, rss=2.0)
@@ -49,7 +49,7 @@ for n in ("p6_auto", "p6_wipe"):
     H(n, src="p_lang.c", tus=["lang", "dependency", "langflags"], strip=P6_STRIP, c16=True, flags=CAD + ["--unwind", "40"], cap=600, rss=3.5)
 
 H("p1_write", src="p_str.c", tus=["polyseed", "dependency"], flags=CAD + ["--unwind", "98"], cap=120, rss=1.0)
-H("p3_lazy", src="p_str.c", tus=["dependency"], defs=["DEP_STR_MAX=1"], flags=CAD, cap=300, rss=2.0)
+H("p3_lazy", src="p_str.c", tus=["dependency"], defs=["DEP_STR_MAX=1", "DEP_IN_LEN_MAX=640"], flags=CAD, cap=300, rss=2.0)
 H("p4_split", src="p_str.c", tus=["polyseed", "dependency"], flags=CAD, cap=600, rss=3.0)
 
 for n in ("t4_table", "t4_distinct", "t4_selffind", "t4_meta", "t4_abbrevfind", "t4_selfcheck"):
@@ -179,6 +179,16 @@ def g_t1(tier, cfgs=("s",), rules=(0, 1, 2, 3)):
     return out
 
 
+def g_t1_long(cfgs=("s",)):
+    out = []
+    for c in cfgs:
+        for r in (0, 1):      # up to 290-byte tokens (beyond any 8-bit length)
+            out.append(I("t1_long", cfg=c, defs=["RULE=%d" % r, "WMAX=10"], flags=UW(300), cap=900, rss=3.0))
+        for r in (2, 3):      # up to 90 bytes, 80 of them combining marks (nested skip loops: 140 units do not fit in memory)
+            out.append(I("t1_long", cfg=c, defs=["RULE=%d" % r, "WMAX=10", "PADMAX=40"], flags=UW(96), cap=1200, rss=5.0))
+    return out
+
+
 def g_t1_safety(cfgs=("s",)):
     out = []
     for c in cfgs:
@@ -198,7 +208,7 @@ def g_t3_lemma(tier, cfgs=("s",), rules=(0, 1, 2, 3)):
 
 
 def g_t2(tier):
-    out = [I("t2_search", defs=["SORTED=1"], flags=UW(13), cap=120, rss=1.0),
+    out = [I("t2_search", defs=["SORTED=1"], flags=UW(100), cap=240, rss=1.5),
            I("t2_search", defs=["SORTED=0", "LINEAR_PREFIX=256"], flags=UW(258), cap=300, rss=2.5)]
     if tier == "thorough":
         out.append(I("t2_search", defs=["SORTED=0"], flags=UW(2050), cap=2400, rss=26.0))
@@ -213,7 +223,9 @@ def g_t4(langs=LANGS, cfgs=("s",), selffind=False):
             out.append(I("t4_table", cfg=c, defs=d, tus=["lang", "lang_" + l], cap=900, rss=2.0))
             if l.startswith("zh"):
                 out.append(I("t4_distinct", cfg=c, defs=d + ["UNSORTED=1"], tus=["lang", "lang_" + l], cap=900, rss=2.0))
-            if selffind:
+            if selffind and not l.startswith("zh"):
+                # (the two unsorted lists are scanned linearly: 2048 x 1024 comparator calls do not finish;
+                #  for them t4_distinct + t1 exact rule + t2 linear scan give the same fact)
                 out.append(I("t4_selffind", cfg=c, defs=d, tus=["lang", "lang_" + l], cap=1800, rss=7.0))
                 if RULE_OF[l] in (1, 3):
                     out.append(I("t4_abbrevfind", cfg=c, defs=d + ["ABBREV=1"], tus=["lang", "lang_" + l], cap=2400, rss=12.0))
@@ -261,7 +273,7 @@ P("C05", lambda t: [I("k2_coin"), I("k2_eval"), I("p2_layout")] + g_p5() + g_p6(
 BE = ["--big-endian"]     # the codecs are byte-wise: re-run on CBMC's big-endian model
 P("C06", lambda t: [I("k6_store"), I("k6_load"), I("p7_load"), I("p7_store"), I("k6_store", flags=BE), I("k6_load", flags=BE)])
 P("C07", lambda t: g_t4(selffind=(t == "thorough")) + g_t1(t) + g_t2(t) + g_t3_lemma(t))
-P("C08", lambda t: g_t1(t) + g_t2(t) + g_t3_lemma(t) + g_t4(selffind=(t == "thorough")) + g_p3(t) + g_p5() + g_p6())
+P("C08", lambda t: g_t1(t) + g_t1_long() + g_t2(t) + g_t3_lemma(t) + g_t4(selffind=(t == "thorough")) + g_p3(t) + g_p5() + g_p6())
 P("C09", lambda t: g_p4(t) + g_p5() + g_p6() + g_t1(t, rules=(0, 1)))
 P("C10", lambda t: [I("k5_features"), I("k5_default"), I("k9_create"), I("p7_load"), I("p7_store"), I("k8_crypt"), I("h_inject")] + g_p5() + g_k3() + [I("k6_store")])
 P("C11", lambda t: [I("k4_birthday"), I("k9_create"), I("k8_crypt"), I("p7_store")] + g_k3() + [I("k6_store")])
@@ -270,12 +282,17 @@ K8_MID = dict(defs=["PWMAX=72", "PW_PREFIX=64", "DEP_PW_COPY=80", "DEP_STR_MAX=1
 P("C12", lambda t: [I("k8_crypt"), I("k8_crypt", **K8_MID)] + ([I("k8_crypt", defs=["PWMAX=20"], cap=900, rss=3.0), I("k8_crypt", **K8_LONG)] if t == "thorough" else [])
   + g_p3(t) + g_k2()[1:3] + g_k3())
 P("C13", lambda t: g_api() + [I("k5_features"), I("k5_default"), I("k4_birthday"), I("p2_layout"), I("p6_auto")] + g_p5() + g_k3())
-P("C14", lambda t: g_p3(t) + g_p4(t) + g_t1_safety() + g_t1(t) + g_p5() + g_p6() + [I("p7_load"), I("k8_crypt")])
+P("C14", lambda t: g_p3(t) + g_p4(t) + g_t1_safety() + g_t1_long() + g_t1(t) + g_p5() + g_p6() + [I("p7_load"), I("k8_crypt")])
 P("C15", lambda t: [I("k9_create"), I("p7_load"), I("h_free"), I("h_inject")] + g_p5())
 P("C16", lambda t: [I("k8_crypt"), I("k9_create"), I("p2_layout"), I("p7_load"), I("h_free"), I("p6_wipe")] + g_p5())
 P("C17", lambda t: g_c17(["ko", "jp", "fr"] if t == "quick" else LANGS) + g_p3(t) + [I("p2_layout")] + g_p5())
 P("C18", lambda t: [I("k9_create"), I("h_inject"), I("k7_keygen"), I("k8_crypt"), I("p7_load"), I("h_free")] + g_p5())
-P("C19", lambda t: g_t1(t, cfgs=("s", "u")) + g_t3_lemma(t, cfgs=("s", "u")) + g_t4(cfgs=("s", "u")) + g_p3(t, cfgs=("s", "u"))
+def g_k_unsigned():
+    # the codec / API layer is supposed to use no plain char: checked, not assumed
+    return [I(h, cfg="u") for h in ("k3_pack", "k3_unpack", "k6_store", "k6_load", "k5_features", "k7_keygen", "k9_create", "p7_load", "p5_decode", "p5_decode_explicit", "k8_crypt")]
+
+
+P("C19", lambda t: g_k_unsigned() + g_t1_long(cfgs=("s", "u")) + g_t1(t, cfgs=("s", "u")) + g_t3_lemma(t, cfgs=("s", "u")) + g_t4(cfgs=("s", "u")) + g_p3(t, cfgs=("s", "u"))
   + g_p6(cfgs=("s", "u")) + (g_p4(t, cfgs=("s", "u")) if t == "thorough" else [I("p4_split", cfg=c, defs=["P4_LEN=12"], flags=UW(19), cap=300, rss=1.0) for c in ("s", "u")]))
 P("C20", lambda t: g_api() + g_p5() + [I("p2_layout"), I("p6_auto")], level="other")
 
